@@ -1,11 +1,17 @@
 package sequence
 
+import "sync"
 import "sync/atomic"
 import "github.com/glebziz/fs_db/internal/verifhook"
 
 type Seq uint64
 
 var seq uint64
+
+// Horizon makes "draw a number and register the transaction under it" (Begin) and "look for the
+// oldest registered transaction, else draw a fresh number" (the collector) exclude each other:
+// the collector must never take a horizon above a transaction that has drawn but is not registered yet.
+var Horizon sync.Mutex
 
 // Set raises the sequence to s. It never lowers it: the sequence is shared by
 // every database opened in the process, and all of them need it above their persisted data.
